@@ -167,10 +167,10 @@ pub fn run_batch(seed: u64, start: u64, count: u64, tier: &str, budget_ms: u64, 
             for (k, v) in &facts {
                 key.push_str(&format!("|{}={}", k, v));
             }
-            if !sum.class_first(&key) {
+            if !sum.class_first(&key) || sum.violations.len() >= 12 {
                 continue;
             }
-            let m = minimise(&plan, &p.clause, 120);
+            let m = if sum.violations.len() < 6 { minimise(&plan, &p.clause, 120) } else { plan.clone() };
             let mut scratch = Summary::new("C02", 0);
             let msg = execute(&m, &mut scratch).into_iter().find(|x| x.clause == p.clause).map(|x| x.message).unwrap_or(p.message.clone());
             sum.violations.push(Violation {
